@@ -44,6 +44,10 @@ pub fn run(prop: &str, tier: Tier, seed: i64, replay: Option<&str>) -> i32 {
                 ck.pumping_stage();
             }
             ck.corpus_stage();
+            if !(prop == "C16" && tier == Tier::Quick) {
+                // (the serde monitor is ten times as expensive per string: thorough tier only there)
+                ck.scalar_position_stage();
+            }
             if matches!(prop, "C04" | "C06" | "C10") {
                 builder_stages(&mut ck, true);
             }
@@ -125,7 +129,16 @@ pub fn run(prop: &str, tier: Tier, seed: i64, replay: Option<&str>) -> i32 {
         },
         "C11" => c11(&mut ck),
         "C14" => shapes_stage(&mut ck),
-        "C09" => builder_stages(&mut ck, true),
+        "C09" => {
+            builder_stages(&mut ck, true);
+            let (a, r) = crate::m_builder::scalar_fields::<String>(prop);
+            ck.add_stage(a, r);
+            #[cfg(feature = "typed")]
+            {
+                let (a, r) = crate::m_builder::scalar_fields::<purl::PackageType>(prop);
+                ck.add_stage(a, r);
+            }
+        },
         _ => {
             eprintln!("MACHINERY: no check for {prop} in this build");
             return 2;
@@ -572,6 +585,39 @@ impl Check {
             a.samples.truncate(2);
             self.total.merge(a);
         }
+    }
+
+    /// Every Unicode scalar value, raw and percent-encoded in both hex cases, in each of the five
+    /// component positions of a parsed string (and in a typed name).
+    pub fn scalar_position_stage(&mut self) {
+        let se = StringEval { prop: self.prop, mon: monitors_for(self.prop) };
+        let t0 = Instant::now();
+        let frames: [(&str, &str); 6] = [("pkg:t/", "/n"), ("pkg:t/x", ""), ("pkg:t/n@1", ""), ("pkg:t/n?k=v", ""), ("pkg:t/n#s/", "/t"), ("pkg:nuget/A", "")];
+        let mut a = sweeps::for_all_scalars(|c, acc| {
+            let mut buf = [0u8; 4];
+            let bytes = c.encode_utf8(&mut buf).as_bytes();
+            let upper: String = bytes.iter().map(|b| format!("%{:02X}", b)).collect();
+            let lower: String = bytes.iter().map(|b| format!("%{:02x}", b)).collect();
+            let raw = c.to_string();
+            for (p, s) in frames.iter() {
+                for (i, spelled) in [&raw, &upper, &lower].iter().enumerate() {
+                    if i == 2 && lower == upper {
+                        continue;
+                    }
+                    let text = format!("{p}{spelled}{s}");
+                    if se.eval(&text, acc) {
+                        acc.nontrivial += 1;
+                    }
+                }
+            }
+            if c == '\u{212A}' || c == '&' {
+                acc.sample(|| json!(format!("pkg:t/n?k=v{upper}")));
+            }
+        });
+        a.samples.truncate(2);
+        self.stages.push(json!({"engine": "E-scalar-positions", "scalar_values": sweeps::N_SCALARS, "frames": frames.iter().map(|(p, s)| format!("{p}<c>{s}")).collect::<Vec<_>>(), "spellings": ["raw", "%XX", "%xx"], "strings": a.evals, "accepted": a.accepted, "wall_s": t0.elapsed().as_secs_f64()}));
+        self.bounds.push(json!({"scalar_position_strings": a.evals}));
+        self.total.merge(a);
     }
 
     /// A9: the one-edit neighbourhood of the upstream conformance corpus
